@@ -50,7 +50,7 @@ def contracts(c, args, ctx):
         return core.Str(b)
     if c in ("core::char::methods::<impl char>::is_whitespace", "char::is_whitespace", "char::methods::<impl char>::is_whitespace"):
         ch = args[0]; return ch in (0x20, 0x09, 0x0A, 0x0B, 0x0C, 0x0D)
-    if c == "<str as PartialEq>::eq" or re.fullmatch(r"<&?str as PartialEq<&?str>>::eq", c):
+    if c == "<str as PartialEq>::eq" or re.fullmatch(r"<&?str as PartialEq<&?str>>::eq|<Cow<'_, str> as PartialEq>::eq|<Cow<'_, str> as PartialEq<&?str>>::eq", c):
         return text(args[0]) == text(args[1])
     if re.fullmatch(r"<I as IntoIterator>::into_iter|<Vec<(std::string::)?String> as IntoIterator>::into_iter", c):
         v = d(args[0]); return core.SliceIter(list(v.items)) if isinstance(v, core.VecV) else v
